@@ -20,11 +20,16 @@
 (* function of the view; equal bags stay equal under conditioning on a field  *)
 (* and under taking a function of the view; two equal bags that are both      *)
 (* concentrated on one value are concentrated on the same value.)  A record   *)
-(* of IOEnv.TRACE is one (compiled program, observer o not among the output   *)
-(* parties, xs, ys differing only in secrets of the other parties): the       *)
+(* of IOEnv.TRACE is one (compiled program, observer o, xs, ys differing only  *)
+(* in secrets of the other parties; if o receives the output, ys is chosen     *)
+(* with the same plaintext result as xs and the record is judged only if o's   *)
+(* actual output is the same, see Judged): the                                 *)
 (* harness (detleak.rs) ran the compiled graph as three parties on the real   *)
 (* evaluator R times on xs and R times on ys, kappa and o's junk fixed,       *)
-(* everything else fresh, and lists per node of o's store                     *)
+(* everything else fresh, and lists per entry -- every node of o's store,     *)
+(* and for every container-valued node the element-wise differences (mod 2^w, *)
+(* XOR for bits) of neighbouring same-typed components, which o can compute   *)
+(* from that one value (two elements masked by the same pad) --               *)
 (*      <<number of distinct values over the xs runs,                         *)
 (*        number of distinct values over the ys runs,                         *)
 (*        1 if the first xs value equals the first ys value else 0>>.         *)
@@ -41,7 +46,12 @@ Lanes == 8
 
 VARIABLE l
 
-Leaks(r) == {i \in 1..Len(r.per) : r.per[i][1] = 1 /\ r.per[i][2] = 1 /\ r.per[i][3] = 0}
+\* An observer that receives the output is entitled to it.  What it receives is the protocol's actual output (for the
+\* probabilistic truncations a function of the inputs AND the tape), so such a record is judged only if, for this kappa,
+\* the observer's output is one and the same value in all runs on xs and on ys; otherwise the two input vectors are not
+\* in one class for this observer and the record says nothing.
+Judged(r) == ~r.outobs \/ r.per[r.out] = <<1, 1, 1>>
+Leaks(r) == IF Judged(r) THEN {i \in 1..Len(r.per) : r.per[i][1] = 1 /\ r.per[i][2] = 1 /\ r.per[i][3] = 0} ELSE {}
 \* nodes whose value at the observer changes with the randomness the observer does not hold: the masked messages
 \* and everything computed from them (a record without any is a program without interaction)
 Masked(r) == {i \in 1..Len(r.per) : r.per[i][1] > 1}
@@ -51,5 +61,5 @@ Next == l + Lanes <= N /\ l' = l + Lanes
 Spec == Init /\ [][Next]_l
 
 DetLeakFree == l <= N => (Leaks(Recs[l]) = {} \/ PrintT(<<"LEAK", l, Leaks(Recs[l])>>))
-Stats == l <= N => PrintT(<<"MASKED", l, Cardinality(Masked(Recs[l]))>>)
+Stats == l <= N => PrintT(<<"MASKED", l, IF Judged(Recs[l]) THEN Cardinality(Masked(Recs[l])) ELSE -1>>)
 =============================================================================
